@@ -66,6 +66,8 @@ pub struct RcEnc {
     pub carries: usize,
     /// longest run of pending 0xFF bytes a carry was propagated through
     pub max_ff_run_at_carry: u64,
+    /// carries that arrived while the new top byte of `low` was itself 0xFF (low >= 0x1_FF00_0000 at a shift)
+    pub carry_on_ff_top: usize,
 }
 impl Default for RcEnc {
     fn default() -> Self {
@@ -84,6 +86,7 @@ impl RcEnc {
             carries_through_ff: 0,
             carries: 0,
             max_ff_run_at_carry: 0,
+            carry_on_ff_top: 0,
         }
     }
     fn shift_low(&mut self) {
@@ -91,6 +94,9 @@ impl RcEnc {
             let carry = (self.low >> 32) as u8;
             if carry != 0 {
                 self.carries += 1;
+                if (self.low as u32) >= 0xFF00_0000 {
+                    self.carry_on_ff_top += 1;
+                }
                 if self.cache_size > 1 {
                     self.carries_through_ff += 1;
                     self.max_ff_run_at_carry = self.max_ff_run_at_carry.max(self.cache_size - 1);
